@@ -134,9 +134,7 @@ def lexer_obligations(run: Run, rule: str, src, g, probes=None):
         except Unknown as u:
             raise AnalysisError(rule, f'{construct}: the abstraction cannot follow the lexer ({u})')
         except AbsRaise as e:
-            got = 'rejects' if 'Exception' in e.exc or 'Error' in e.exc else f'raises {e.exc}'
-            if want == 'rejects' and got != 'rejects':
-                got = 'rejects'
+            got = 'rejects' if _is_parser_rejection(ev, e.exc) else f'raises {e.exc}'
         same = got == want
         n += 1
         run.check(same, rule, construct, 'token-stream',
@@ -396,13 +394,18 @@ def parser_obligations(run: Run, rule: str, src, g, probes=None):
             except Unknown as u:
                 raise AnalysisError(rule, f'{construct}: the abstraction cannot follow the parser ({u})')
             except AbsRaise as e:
-                got = 'rejects' if e.exc in _library_exception_names(src) else f'raises {e.exc}'
+                got = 'rejects' if _is_parser_rejection(ev, e.exc) else f'raises {e.exc}'
             run.check(got == want, rule, construct, 'parse-tree',
                       f'the parser turns {text!r} into {_tree(got)}; ordered choice over the productions, each matched in full, a function '
                       f'whose argument list fits no production rejected with the parser exception: {_tree(want)}', fact=f'-> {_tree(got)[:120]}',
                       loc=loc)
     finally:
         sys.setrecursionlimit(old)
+
+
+def _is_parser_rejection(ev, exc: str) -> bool:
+    """the library's parser exception or one derived from it"""
+    return exc == 'E2PyclParserException' or 'E2PyclParserException' in getattr(ev, 'exception_bases', {}).get(exc, ())
 
 
 def _library_exception_names(src):
